@@ -245,24 +245,34 @@ func c07Run(c *mon.Ctx) {
 			}
 		}
 	}
-	// watch-shaped syscall rules (path/dir + perm [+ key], all syscalls) in every order / action / operator
+	// watch-shaped syscall rules (path/dir + perm [+ key], all syscalls) in every order / action / operator,
+	// with the key given with -k and as a filter with every operator
 	for _, act := range []string{"always", "never"} {
 		for _, op := range []string{"=", "!="} {
-			for _, order := range [][]string{{"path", "perm"}, {"perm", "path"}, {"dir", "perm"}, {"perm", "dir"}, {"perm"}, {"path", "perm", "perm"}} {
+			for _, order := range [][]string{{"path", "perm"}, {"perm", "path"}, {"dir", "perm"}, {"perm", "dir"}, {"perm"}, {"path", "perm", "perm"}, {"path", "perm", "key"}, {"dir", "perm", "key"}, {"key", "path", "perm"}, {"path", "key", "perm"}, {"path", "perm", "key", "key"}} {
 				for _, keys := range [][]string{nil, {"k"}, {"k1", "k2"}} {
-					s := &rulegen.Spec{List: "exit", Action: act, Keys: keys}
-					for _, fn := range order {
-						switch fn {
-						case "path":
-							s.Filters = append(s.Filters, rulegen.Filter{LHS: "path", Op: op, RHS: file, Field: uapi.Fields["path"], Str: true})
-						case "dir":
-							s.Filters = append(s.Filters, rulegen.Filter{LHS: "dir", Op: op, RHS: dir, Field: uapi.Fields["dir"], Str: true})
-						case "perm":
-							s.Filters = append(s.Filters, rulegen.Filter{LHS: "perm", Op: "=", RHS: "wa", Field: uapi.Fields["perm"], Value: 10})
+					for _, keyOp := range rulegen.AllOps {
+						hasKeyFilter := false
+						s := &rulegen.Spec{List: "exit", Action: act, Keys: keys}
+						for _, fn := range order {
+							switch fn {
+							case "path":
+								s.Filters = append(s.Filters, rulegen.Filter{LHS: "path", Op: op, RHS: file, Field: uapi.Fields["path"], Str: true})
+							case "dir":
+								s.Filters = append(s.Filters, rulegen.Filter{LHS: "dir", Op: op, RHS: dir, Field: uapi.Fields["dir"], Str: true})
+							case "perm":
+								s.Filters = append(s.Filters, rulegen.Filter{LHS: "perm", Op: "=", RHS: "wa", Field: uapi.Fields["perm"], Value: 10})
+							case "key":
+								hasKeyFilter = true
+								s.Filters = append(s.Filters, rulegen.Filter{LHS: "key", Op: keyOp, RHS: "kf", Field: uapi.Fields["key"], Str: true})
+							}
 						}
+						if !hasKeyFilter && keyOp != "=" {
+							continue
+						}
+						run(s)
+						c.Add("watch_shaped_syscall_rules", 1)
 					}
-					run(s)
-					c.Add("watch_shaped_syscall_rules", 1)
 				}
 			}
 		}
